@@ -21,7 +21,9 @@ vars == <<s, call>>
 \* a B space newline e-acute grinning-face < & % ' + "
 \* ... dotless-i long-s turned-a (letters whose other case is encoded in another number of bytes)
 AlphaWide == { <<97>>, <<66>>, <<32>>, <<10>>, <<195, 169>>, <<240, 159, 152, 128>>, <<60>>, <<62>>, <<38>>, <<37>>, <<39>>, <<43>>, <<34>>,
-               <<196, 177>>, <<197, 191>>, <<201, 144>> }
+               <<196, 177>>, <<197, 191>>, <<201, 144>>,
+               \* the characters just outside the two ASCII letter ranges: @ [ ` {
+               <<64>>, <<91>>, <<96>>, <<123>> }
 AlphaCore == { <<97>>, <<66>>, <<32>>, <<195, 169>>, <<60>>, <<38>> }
 Alpha == IF Wide THEN AlphaWide ELSE AlphaCore
 
